@@ -18,9 +18,25 @@ def run(tier, seed, vh, only_paths=None, mode=None):
         if rc != 0 or "No error has been found" not in out:
             raise Inconclusive("Leg A: RosmarExpiry did not check cleanly: %s" % tlc_errors(out)[:3])
         g, d = tlc_stats(out)
-        rc2, out2 = run_tlc("RosmarExpiry.tla", os.path.join(SPEC, "MC_Expiry_witness.cfg"), os.path.join(run, "meta_mc2"), workers=16, timeout=600)
-        if "Invariant TimerCoversEarliest is violated" not in out2:
+        # the witness configuration (Touch does not arm the timer) must break the invariant; its behaviours are
+        # directed scripts for the real code (a deadline brought forward by a touch, with the expiry given either way)
+        rc2, out2 = run_tlc("RosmarExpiry.tla", os.path.join(SPEC, "MC_Expiry_witness.cfg"), os.path.join(run, "meta_mc2"), workers=8, timeout=600,
+                            extra=["-continue"])
+        ws = [json.loads(l)[len("WITNESS "):] for l in out2.splitlines() if l.startswith('"WITNESS ')]
+        if not ws:
             raise Inconclusive("vacuity control: TouchArms=FALSE no longer violates TimerCoversEarliest")
+        rndw = __import__("random").Random(seed)
+        ws = sorted(set(ws))
+        rndw.shuffle(ws)
+        witness_scripts = []
+        for k, w in enumerate(ws[: (16 if tier == "quick" else 100)]):
+            sc = json.loads(w)
+            for o in sc:
+                if o["op"] in ("Touch", "Set", "Add") and o["e"] > 0 and (k + len(o["key"])) % 2 == 0:
+                    o["rel"] = True          # the same deadline given as an offset
+            # something with an earlier or later deadline on another key afterwards: is the timer still right?
+            sc.append({"op": "Set", "coll": "c0", "key": "k2", "e": 2 if k % 2 == 0 else 4, "rel": False})
+            witness_scripts.append(sc)
         res["mc"] = {"cfg": "MC_Expiry", "states": d, "transitions": g, "witness_TouchArms_FALSE_violates": True}
         n, procs = (16, 4) if tier == "quick" else (50, 8)
         scripts, seen = [], set()
@@ -38,6 +54,7 @@ def run(tier, seed, vh, only_paths=None, mode=None):
                             scripts.append(json.loads(s))
         if not scripts:
             raise Inconclusive("TLC generated no expiry scripts")
+        scripts += witness_scripts
     else:
         scripts = only_paths
         res["mc"] = {"states": 0, "transitions": 0}
